@@ -385,7 +385,40 @@ def _boundary_fn(ctx, rid, fn, sigkey):
     return n
 
 
+def r10(ctx):
+    ctx.rule('C06.R10', 'a built-in table that becomes a value list maps one-to-one: every constant string table whose elements '
+             'SingleDataField::create stores as names of a value list (the week day names of BDY/HDY) has pairwise different, '
+             'non-empty entries - with a repeated name two raw values decode to the same text and the text encodes to the '
+             'first of them only', minimum=1)
+    fb = ctx.fb
+    fn = fb.fn('ebusd::SingleDataField::create')
+    ctx.touch(fn)
+    n = 0
+    done = set()
+    for x in fn.all('ArraySubscriptExpr'):
+        b = fn.nodes[fn.strip(fn.nodes[x]['base'], casts=True)]
+        if b.get('k') != 'DeclRefExpr' or not b.get('qn') or b['qn'] not in fb.globals or b['qn'] in done:
+            continue
+        g = fb.globals[b['qn']]
+        if not isinstance(g.get('init'), list) or 'char' not in (g.get('t') or ''):
+            continue
+        # stored into a map element: parent chain reaches an operator= whose target is a subscript of a map
+        stored = any(fn.nodes[a].get('k') == 'CXXOperatorCallExpr' and fn.nodes[a].get('op') == '=' for a in fn.ancestors(x))
+        if not stored:
+            continue
+        done.add(b['qn'])
+        n += 1
+        ent = g['init']
+        dup = sorted(set(e for e in ent if ent.count(e) > 1))
+        ok = not dup and all(ent) and len(ent) == g.get('arr')
+        ctx.ob('C06.R10', fn, x, ok, 'table %s' % b['qn'].split('::')[-1], 'repeated entries %s' % dup if dup else
+               ('%d distinct names' % len(ent) if ok else 'empty or missing entries in %s' % ent))
+    if n < 1:
+        raise AnalysisBroken('C06.R10: no constant name table is stored into a value list in SingleDataField::create')
+
+
 def run(ctx):
+    r10(ctx)
     boundary_rule(ctx, 'C06.R9')
     r8(ctx)
     r1(ctx)
@@ -400,3 +433,6 @@ def run(ctx):
                'decoded text re-encodes only if numbers were printed in decimal whatever an earlier field left in the stream')
     ctx.borrow(c12.r5, {'C12.R5': 'C06.R7'},
                'decoded text re-encodes to the same bytes only if it was printed with the type\'s own precision')
+    import rules.common as _common
+    ctx.rule('C06.R11', 'arguments keep their roles across calls: at every call of a repository function in the field/data type sources (the same offsets, lengths and formats must reach decode and encode) whose arguments are named like parameters of the callee, no two of them are passed crosswise (argument i named like parameter j and argument j like parameter i)', minimum=40)
+    _common.swapped_args_rule(ctx, 'C06.R11', ('src/lib/ebus/data',), 40)
